@@ -82,7 +82,7 @@ pub fn run_c08(chk: &Check, tier: Tier) {
             // design assumed
             chk.set("note_unexpected_state_count", json!(out.nodes.len()));
         }
-        if tier.thorough() && out.found.is_empty() {
+        if tier.thorough() && out.found.is_empty() && chk.violation_count() == 0 {
             let plain = c08_system("C08", c, Report { oracle: true, ..Default::default() }, &all_values());
             let xs_plain = xs::explore(&plain, &Limits { restoration_check: false, ..Default::default() });
             let r = xs::sr::run(std::sync::Arc::new(plain), xs::n_threads());
